@@ -208,60 +208,71 @@ fn check_decoded_protected(g: &mut Gen, ctx: &mut Ctx) -> CaseResult {
     Ok(())
 }
 
-/// A type of the harness' own that implements the crate's public serialisation traits with an
-/// arbitrary tag number, like an application type would: the provided `to_tagged_vec` /
-/// `from_tagged_slice` must agree with the Value-level forms for every tag number.
-#[derive(Clone, Debug, PartialEq)]
-struct Foreign<const T: u64>(Value);
-impl<const T: u64> coset::AsCborValue for Foreign<T> {
-    fn from_cbor_value(value: Value) -> coset::Result<Self> {
-        Ok(Foreign(value))
+#[cfg(feature = "own_impls")]
+mod foreign {
+    use super::*;
+    /// A type of the harness' own that implements the crate's public serialisation traits with an
+    /// arbitrary tag number, like an application type would: the provided `to_tagged_vec` /
+    /// `from_tagged_slice` must agree with the Value-level forms for every tag number.
+    #[derive(Clone, Debug, PartialEq)]
+    struct Foreign<const T: u64>(Value);
+    impl<const T: u64> coset::AsCborValue for Foreign<T> {
+        fn from_cbor_value(value: Value) -> coset::Result<Self> {
+            Ok(Foreign(value))
+        }
+        fn to_cbor_value(self) -> coset::Result<Value> {
+            Ok(self.0)
+        }
     }
-    fn to_cbor_value(self) -> coset::Result<Value> {
-        Ok(self.0)
+    impl<const T: u64> coset::CborSerializable for Foreign<T> {}
+    impl<const T: u64> coset::TaggedCborSerializable for Foreign<T> {
+        const TAG: u64 = T;
     }
-}
-impl<const T: u64> coset::CborSerializable for Foreign<T> {}
-impl<const T: u64> coset::TaggedCborSerializable for Foreign<T> {
-    const TAG: u64 = T;
-}
 
-fn check_foreign_one<const T: u64>(v: &Value, ctx: &mut Ctx) -> CaseResult {
-    use coset::{CborSerializable, TaggedCborSerializable};
-    let x = Foreign::<T>(v.clone());
-    let tagged = x.clone().to_tagged_vec().map_err(|e| format!("to_tagged_vec failed for tag {}: {:?}", T, e))?;
-    let via = serialise(&Value::Tag(T, Box::new(v.clone()))).map_err(|_| "serialise")?;
-    ctx.nontrivial(hash_bytes(&[&T.to_be_bytes()[..], &tagged].concat()));
-    ctx.sample_with(|| format!("foreign type with tag {}: to_tagged_vec {}", T, hex_trunc(&tagged, 24)));
-    ensure!(tagged == via, "a type with TAG = {}: to_tagged_vec gives {} but serialising Tag(TAG, to_cbor_value) gives {}", T, hex_trunc(&tagged, 40), hex_trunc(&via, 40));
-    let mut want = vec![];
-    crate::cbor::head(&mut want, 6, T);
-    want.extend_from_slice(&x.clone().to_vec().map_err(|e| format!("{:?}", e))?);
-    ensure!(tagged == want, "a type with TAG = {}: to_tagged_vec is not the minimal tag head followed by to_vec: {}", T, hex_trunc(&tagged, 40));
-    match Foreign::<T>::from_tagged_slice(&tagged) {
-        Ok(back) => ensure!(crate::props::common::same(&back, &x), "a type with TAG = {}: from_tagged_slice(to_tagged_vec(x)) != x", T),
-        Err(e) => fail!("a type with TAG = {}: from_tagged_slice rejects to_tagged_vec output: {:?}", T, e),
+    fn check_foreign_one<const T: u64>(v: &Value, ctx: &mut Ctx) -> CaseResult {
+        use coset::{CborSerializable, TaggedCborSerializable};
+        let x = Foreign::<T>(v.clone());
+        let tagged = x.clone().to_tagged_vec().map_err(|e| format!("to_tagged_vec failed for tag {}: {:?}", T, e))?;
+        let via = serialise(&Value::Tag(T, Box::new(v.clone()))).map_err(|_| "serialise")?;
+        ctx.nontrivial(hash_bytes(&[&T.to_be_bytes()[..], &tagged].concat()));
+        ctx.sample_with(|| format!("foreign type with tag {}: to_tagged_vec {}", T, hex_trunc(&tagged, 24)));
+        ensure!(tagged == via, "a type with TAG = {}: to_tagged_vec gives {} but serialising Tag(TAG, to_cbor_value) gives {}", T, hex_trunc(&tagged, 40), hex_trunc(&via, 40));
+        let mut want = vec![];
+        crate::cbor::head(&mut want, 6, T);
+        want.extend_from_slice(&x.clone().to_vec().map_err(|e| format!("{:?}", e))?);
+        ensure!(tagged == want, "a type with TAG = {}: to_tagged_vec is not the minimal tag head followed by to_vec: {}", T, hex_trunc(&tagged, 40));
+        match Foreign::<T>::from_tagged_slice(&tagged) {
+            Ok(back) => ensure!(crate::props::common::same(&back, &x), "a type with TAG = {}: from_tagged_slice(to_tagged_vec(x)) != x", T),
+            Err(e) => fail!("a type with TAG = {}: from_tagged_slice rejects to_tagged_vec output: {:?}", T, e),
+        }
+        // every other tag number is refused
+        let mut other = vec![];
+        crate::cbor::head(&mut other, 6, if T == u64::MAX { T - 1 } else { T + 1 });
+        other.extend_from_slice(&x.to_vec().map_err(|e| format!("{:?}", e))?);
+        ensure!(Foreign::<T>::from_tagged_slice(&other).is_err(), "a type with TAG = {} accepts the neighbouring tag number", T);
+        Ok(())
     }
-    // every other tag number is refused
-    let mut other = vec![];
-    crate::cbor::head(&mut other, 6, if T == u64::MAX { T - 1 } else { T + 1 });
-    other.extend_from_slice(&x.to_vec().map_err(|e| format!("{:?}", e))?);
-    ensure!(Foreign::<T>::from_tagged_slice(&other).is_err(), "a type with TAG = {} accepts the neighbouring tag number", T);
-    Ok(())
-}
 
-fn check_foreign_tags(g: &mut Gen, ctx: &mut Ctx) -> CaseResult {
-    let item = crate::gen::gen_value(g, 1, false);
-    let v = match crate::conv::item_to_value(&item) {
-        Some(v) => v,
-        None => return Ok(()),
-    };
-    ctx.class("foreign-tagged-type");
-    macro_rules! all {
-        ($($t:expr),*) => { $( check_foreign_one::<{ $t }>(&v, ctx)?; )* };
+    pub fn check_foreign_tags(g: &mut Gen, ctx: &mut Ctx) -> CaseResult {
+        let item = crate::gen::gen_value(g, 1, false);
+        let v = match crate::conv::item_to_value(&item) {
+            Some(v) => v,
+            None => return Ok(()),
+        };
+        ctx.class("foreign-tagged-type");
+        macro_rules! all {
+            ($($t:expr),*) => { $( check_foreign_one::<{ $t }>(&v, ctx)?; )* };
+        }
+        all!(0, 1, 23, 24, 255, 256, 65535, 65536, 0x00ff_ffff, 0x0100_0000, 0x0fff_ffff, 0x1000_0000, 0x6374_0101, 0x7fff_ffff, 0x8000_0000, 0xffff_ffff,
+             0x1_0000_0000, 0xff_ffff_ffff, 0x7fff_ffff_ffff_ffff, 0x8000_0000_0000_0000, 0xffff_ffff_ffff_ffff);
+        Ok(())
     }
-    all!(0, 1, 23, 24, 255, 256, 65535, 65536, 0x00ff_ffff, 0x0100_0000, 0x0fff_ffff, 0x1000_0000, 0x6374_0101, 0x7fff_ffff, 0x8000_0000, 0xffff_ffff,
-         0x1_0000_0000, 0xff_ffff_ffff, 0x7fff_ffff_ffff_ffff, 0x8000_0000_0000_0000, 0xffff_ffff_ffff_ffff);
+}
+#[cfg(feature = "own_impls")]
+use foreign::check_foreign_tags;
+#[cfg(not(feature = "own_impls"))]
+fn check_foreign_tags(_g: &mut Gen, ctx: &mut Ctx) -> CaseResult {
+    ctx.class("foreign-tagged-type:not-built");
     Ok(())
 }
 
